@@ -12,9 +12,10 @@
    is read from a history, one event per call, in call order.  Quantifying over every
    history covers every fault position, every stage and every outcome history.
 
-   The two repairs of fixes/C12-*.diff are switches of a [variant], so that the same
-   definitions describe the tree as it is ([current]) and the repaired tree
-   ([repaired]); the check says which of them the implementation follows. *)
+   The repairs are switches of a [variant], so that the same definitions describe the
+   tree before the fix commits ([current]) and the repaired tree ([repaired] = the fixes
+   branch: try/finally restoration, the caller's string kept, and validation moved in
+   front of the evolution); the check says which of them the implementation follows. *)
 From Coq Require Import ZArith List Bool.
 Import ListNotations.
 Open Scope Z_scope.
@@ -86,7 +87,7 @@ Definition is_prep (i : instr) : bool := match i_kind i with KPrep => true | _ =
 (* ------------------------------------------------------------------ outcomes, histories *)
 Inductive err :=
 | EInvalidParameter | EInvalidSimulation | EInvalidModes | EInvalidState
-| EInvalidProgram | EValueError | EPiquasso | EInjected.
+| EInvalidProgram | EValueError | EPiquasso | EInjected | EInactiveModes.
 
 Inductive ev :=
 | EvRaise                                (* this call raises *)
@@ -104,10 +105,14 @@ Inductive call :=
 
 Record variant := mkV {
   v_fin : bool;   (* fixes/C12-restore-on-exception.diff: try/finally around remap and resolve *)
-  v_keep : bool   (* fixes/C12-keep-caller-string.diff: write back the caller's object *)
+  v_keep : bool;  (* fixes/C12-keep-caller-string.diff: write back the caller's object *)
+  v_up : bool     (* "reject invalid programs before any evolution": repeated modes, measured-mode
+                     re-use, mode-less arity, shots=None support and _validate of
+                     outcome-independent instructions are checked in execute_instructions;
+                     inside the loop _validate only runs for outcome-dependent instructions *)
 }.
-Definition current := mkV false false.
-Definition repaired := mkV true true.
+Definition current := mkV false false false.
+Definition repaired := mkV true true true.
 
 (* ------------------------------------------------------------------ modes *)
 Definition memz (x : Z) (l : list Z) : bool := existsb (Z.eqb x) l.
@@ -151,6 +156,9 @@ Fixpoint resolve_all (idx : Z) (outcome : list Z) (us : params) (h : hist) (tr :
     end
   end.
 
+(* api/instruction.py:Instruction._is_resolved *)
+Definition is_resolved (i : instr) : bool := match i_unres i with [] => true | _ => false end.
+
 (* api/instruction.py:Instruction._unresolve_params *)
 Definition unresolve (v : variant) (i : instr) : instr :=
   with_params i (update (i_params i) (if v_keep v then i_orig i else i_unres i)).
@@ -186,9 +194,9 @@ Fixpoint branch_loop (v : variant) (validate : bool) (idx : Z) (i : instr)
       | Some rs =>
         let i1 := with_params i (update (i_params i) rs) in
         let on_raise := if v_fin v then unresolve v i1 else i1 in
-        (* if self.config.validate: instruction._validate(self._connector) *)
+        (* if self.config.validate [and not is_instruction_resolved]: instruction._validate(...) *)
         let '(vok, h3, tr3) :=
-          if validate then
+          if validate && (negb (v_up v) || negb (is_resolved i)) then
             match h2 with
             | EvVal _ _ :: h' => (true, h', CValidate idx (i_modes i1) (i_params i1) :: tr2)
             | _ => (false, tl h2, CValidate idx (i_modes i1) (i_params i1) :: tr2)
@@ -288,20 +296,67 @@ Fixpoint meas_last (prog : list instr) : bool :=
               end
   end.
 
+Fixpoint distinct (l : list Z) : bool :=
+  match l with [] => true | x :: r => negb (memz x r) && distinct r end.
+
+(* api/simulator.py:Simulator._validate_active_modes (fixes branch): the modes of a measurement
+   leave the register whatever the outcome, so re-use is detected beforehand *)
+Fixpoint validate_active (active : list Z) (prog : list instr) : option err :=
+  match prog with
+  | [] => None
+  | i :: r =>
+    let bad :=
+      match i_modes i with
+      | [] => if negb (modes_ok i active) then Some EInvalidProgram else None
+      | m => if existsb (fun x => negb (memz x active)) m then Some EInactiveModes else None
+      end in
+    match bad with
+    | Some e => Some e
+    | None =>
+      let active' :=
+        if is_meas i then
+          match i_modes i with
+          | [] => []
+          | m => filter (fun x => negb (memz x m)) active
+          end
+        else active in
+      validate_active active' r
+    end
+  end.
+
 (* api/simulator.py:Simulator._validate_instructions *)
-Definition validate_instructions (prog : list instr) (d : Z) : option err :=
+Definition validate_instructions (v : variant) (prog : list instr) (d : Z) : option err :=
   if negb (forallb i_known prog) then Some EInvalidSimulation
-  else if negb (forallb (fun i => forallb (fun m => (0 <=? m) && (m <? d)) (i_modes i)) prog)
+  else if negb (forallb (fun i => forallb (fun m => (0 <=? m) && (m <? d)) (i_modes i)
+                                   && (negb (v_up v) || distinct (i_modes i))) prog)
        then Some EInvalidModes
   else if negb (preps_first false prog) then Some EInvalidSimulation
   else if negb (meas_last prog) then Some EInvalidSimulation
+  else if v_up v then validate_active (range d) prog
   else None.
 
 (* api/simulator.py:Simulator.validate *)
-Definition validate_program (sim_d : option Z) (prog : list instr) : option err :=
+Definition validate_program (v : variant) (sim_d : option Z) (prog : list instr) : option err :=
   match try_infer_d sim_d prog with
   | None => Some EInvalidSimulation
-  | Some d => validate_instructions prog d
+  | Some d => validate_instructions v prog d
+  end.
+
+(* api/simulator.py:Simulator._validate_resolved_parameters (fixes branch): _validate of every
+   instruction whose parameters do not depend on outcomes, before the evolution; the
+   instruction is seen as the caller wrote it (modes not remapped) *)
+Fixpoint prevalidate (idx : Z) (prog : list instr) (h : hist) (tr : list call)
+  : bool * hist * list call :=
+  match prog with
+  | [] => (true, h, tr)
+  | i :: r =>
+    if is_resolved i then
+      let tr1 := CValidate idx (i_modes i) (i_params i) :: tr in
+      match h with
+      | EvVal _ _ :: h' => prevalidate (idx + 1) r h' tr1
+      | _ => (false, tl h, tr1)
+      end
+    else prevalidate (idx + 1) r h tr
   end.
 
 (* api/simulator.py:Simulator.execute / execute_instructions.
@@ -321,18 +376,23 @@ Definition execute (v : variant) (validate : bool) (sim_d : option Z) (shots : o
     match try_infer_d sim_d prog with
     | None => (inl EInvalidSimulation, prog, [])
     | Some d =>
-      match validate_instructions prog d with
+      match validate_instructions v prog d with
       | Some e => (inl e, prog, [])
       | None =>
+        let shots_none := match shots with None => true | _ => false end in
+        (* _validate_shots_none_support *)
+        if v_up v && shots_none && existsb (fun i => is_meas i && negb (i_none_ok i)) prog
+        then (inl EInvalidParameter, prog, []) else
         let bad_state :=
           match init with
           | Some (right_class, d0) => negb right_class || negb (d0 =? d)
           | None => false
           end in
         if bad_state then (inl EInvalidState, prog, []) else
-        let '(r, prog', tr) :=
-          do_exec v validate (match shots with None => true | _ => false end)
-                  0 (range d) prog [[]] h [] in
+        let '(pok, h0, tr0) :=
+          if v_up v && validate then prevalidate 0 prog h [] else (true, h, []) in
+        if negb pok then (inl EInjected, prog, rev tr0) else
+        let '(r, prog', tr) := do_exec v validate shots_none 0 (range d) prog [[]] h0 tr0 in
         (r, prog', rev tr)
       end
     end
@@ -360,6 +420,7 @@ Definition err_code (e : err) : Z :=
   match e with
   | EInvalidParameter => 1 | EInvalidSimulation => 2 | EInvalidModes => 3 | EInvalidState => 4
   | EInvalidProgram => 5 | EValueError => 6 | EPiquasso => 7 | EInjected => 8
+  | EInactiveModes => 9
   end.
 Definition ser_result (r : err + list (list Z)) : list Z :=
   match r with
